@@ -123,7 +123,7 @@ func verifRunNative(sc verifScenario) (code int, stdout string, want string) {
 	} else if sc.searchFails {
 		expr = "abs('x')"
 	}
-	input := `{"a":{"b":[1,"x",null,{"c":1.5}]}}`
+	input := `{"a":{"b":[1,"100% done %s %d %%","x\ny <&> \u00e9",null,{"c":1.5,"%v":"%"}]}}`
 	if sc.badJSON {
 		input = "{"
 	}
